@@ -23,6 +23,20 @@ use fjall::{Config, Keyspace, PartitionCreateOptions, PartitionHandle};
 // Context with all bits set to zero for system operations
 pub const ZERO_CONTEXT: Scru128Id = Scru128Id::from_bytes([0; 16]);
 
+/// A frame the store refuses because of what it is (unregistered context, `xs.context` outside the
+/// zero context, NUL byte in the topic, an encoding that cannot be read back) - as opposed to a
+/// storage failure. Front ends answer it as a client error.
+#[derive(Debug)]
+pub struct InvalidFrame(pub String);
+
+impl fmt::Display for InvalidFrame {
+    fn fmt(&self, f: &mut fmt::Formatter) -> fmt::Result {
+        write!(f, "{}", self.0)
+    }
+}
+
+impl std::error::Error for InvalidFrame {}
+
 #[derive(PartialEq, Eq, Serialize, Deserialize, Clone, Default, bon::Builder)]
 pub struct Frame {
     #[builder(start_fn, into)]
@@ -548,8 +562,11 @@ impl Store {
         // Reads deserialize what is stored here and panic when that fails: refuse a frame
         // whose encoding cannot be read back (e.g. meta nested beyond the JSON parser's
         // recursion limit) instead of poisoning every later read
-        serde_json::from_slice::<Frame>(&encoded)
-            .map_err(|e| format!("frame cannot be stored, its encoding does not decode: {e}"))?;
+        serde_json::from_slice::<Frame>(&encoded).map_err(|e| {
+            InvalidFrame(format!(
+                "frame cannot be stored, its encoding does not decode: {e}"
+            ))
+        })?;
 
         // Get the index topic key
         let topic_key = idx_topic_key_from_frame(frame)?;
@@ -604,7 +621,7 @@ impl Store {
         // Special handling for xs.context registration
         if frame.topic == "xs.context" {
             if frame.context_id != ZERO_CONTEXT {
-                return Err("xs.context frames must be in zero context".into());
+                return Err(InvalidFrame("xs.context frames must be in zero context".into()).into());
             }
             frame.ttl = Some(TTL::Forever);
             self.contexts.write().unwrap().insert(frame.id);
@@ -612,7 +629,7 @@ impl Store {
             // Validate context exists
             let contexts = self.contexts.read().unwrap();
             if !contexts.contains(&frame.context_id) {
-                return Err(format!("Invalid context: {}", frame.context_id).into());
+                return Err(InvalidFrame(format!("Invalid context: {}", frame.context_id)).into());
             }
         }
 
@@ -768,11 +785,10 @@ fn idx_topic_key_prefix(context_id: Scru128Id, topic: &str) -> Vec<u8> {
 pub(crate) fn idx_topic_key_from_frame(frame: &Frame) -> Result<Vec<u8>, crate::error::Error> {
     // Check if the topic contains a null byte when encoded as UTF-8
     if frame.topic.as_bytes().contains(&NULL_DELIMITER) {
-        return Err(
-            "Topic cannot contain null byte (0x00) as it's used as a delimiter"
-                .to_string()
-                .into(),
-        );
+        return Err(InvalidFrame(
+            "Topic cannot contain null byte (0x00) as it's used as a delimiter".to_string(),
+        )
+        .into());
     }
     let mut v = idx_topic_key_prefix(frame.context_id, &frame.topic);
     v.extend(frame.id.as_bytes());
